@@ -14,6 +14,33 @@ fn leak(s: String) -> &'static str {
     Box::leak(s.into_boxed_str())
 }
 
+/// The same content gives the same `&'static str` (same address), as a string literal or a `static` used in several places of a
+/// program does: static text and attribute values built from it are `Cow::Borrowed`.
+#[allow(dead_code)]
+fn lit(s: &str) -> &'static str {
+    static TABLE: std::sync::Mutex<Option<std::collections::HashMap<String, &'static str>>> = std::sync::Mutex::new(None);
+    let mut t = TABLE.lock().unwrap();
+    let t = t.get_or_insert_with(Default::default);
+    if let Some(x) = t.get(s) {
+        return x;
+    }
+    let x = leak(s.to_string());
+    t.insert(s.to_string(), x);
+    x
+}
+
+thread_local! {
+    static LITERALS: std::cell::Cell<bool> = const { std::cell::Cell::new(false) };
+}
+/// `true`: static text and static attribute values are passed to the library as string literals (`&'static str`), not as owned strings
+#[allow(dead_code)]
+pub fn set_literals(b: bool) {
+    LITERALS.with(|c| c.set(b));
+}
+fn literals() -> bool {
+    LITERALS.with(|c| c.get())
+}
+
 #[derive(Clone)]
 pub enum Attr {
     Str(String, String),
@@ -131,7 +158,13 @@ impl Signals {
 fn apply_attrs<E: GlobalAttributes>(mut el: E, attrs: &[Attr], sigs: &Signals) -> E {
     for a in attrs {
         el = match a {
-            Attr::Str(n, v) => el.attr(leak(n.clone()), v.clone()),
+            Attr::Str(n, v) => {
+                if literals() {
+                    el.attr(leak(n.clone()), lit(v))
+                } else {
+                    el.attr(leak(n.clone()), v.clone())
+                }
+            }
             Attr::Dyn(n, k) => {
                 let sig = sigs.s(*k);
                 el.attr(leak(n.clone()), move || sig.get_clone().map(std::borrow::Cow::from))
@@ -197,7 +230,13 @@ pub fn build(v: &VSpec, sigs: &Signals, item: Option<i64>) -> View {
                 _ => finish!(custom_element(leak(tag.clone()))),
             }
         }
-        VSpec::Text(s) => View::from(s.clone()),
+        VSpec::Text(s) => {
+            if literals() {
+                View::from(lit(s))
+            } else {
+                View::from(s.clone())
+            }
+        }
         VSpec::DynText(k) => {
             let sig = sigs.s(*k);
             View::from_dynamic(move || sig.get_clone().unwrap_or_default())
